@@ -117,12 +117,134 @@ class MatchValues(Scenario):
             return "ok"
 
 
+class AddDepthData(Scenario):
+    """two depth logs added to a drillhole (any order of depths, second log possibly collocated with the first):
+    every vertex sits at the position of its depth and each value stays attached to its depth"""
+    pid = "C18"
+    builtins_for = ("geoh5py.objects.drillhole:float,int",)
+
+    def body(self, cx):
+        from geoh5py.workspace import Workspace
+        from geoh5py.objects import Drillhole
+        n1, n2 = self.params["n1"], self.params["n2"]
+        tol = 0.5
+        ws = Workspace()
+        dh = Drillhole.create(ws, collar=[10.0, 20.0, 30.0],
+                              surveys=real_np.c_[[0.0, 8.0, 16.0], [0.0, 40.0, 40.0], [-90.0, -60.0, -45.0]])
+        patch.detach(ws, dh)
+        with self.engine(cx) as X:
+            d = [cx.real(f"d{i}") for i in range(n1)]
+            x = [cx.real(f"x{i}") for i in range(n1)]
+            e = [cx.real(f"e{i}") for i in range(n2)]
+            y = [cx.real(f"y{i}") for i in range(n2)]
+            far = lambda a, b: Or(a - b >= tol, b - a >= tol)          # noqa: E731
+            for i in range(n1):
+                cx.assume(d[i] >= 0)
+                for j in range(i + 1, n1):
+                    cx.assume(far(d[i], d[j]))          # one log does not repeat its own depths
+            for i in range(n2):
+                cx.assume(e[i] >= 0)
+                for j in range(i + 1, n2):
+                    cx.assume(far(e[i], e[j]))
+            a = dh.add_data({"logA": {"depth": mk_array(X, d, (n1,), "float64"), "values": mk_array(X, x, (n1,), "float64")}},
+                            collocation_distance=tol)
+            b = dh.add_data({"logB": {"depth": mk_array(X, e, (n2,), "float64"), "values": mk_array(X, y, (n2,), "float64")}},
+                            collocation_distance=tol)
+            depth = elems(dh.get_data("DEPTH")[0].values)
+            nv = shape(dh.vertices)[0]
+            va, vb = elems(a.values), elems(b.values)
+            cx.prove(len(depth) == nv and len(va) <= nv and len(vb) <= nv, "one depth per vertex, no value beyond the vertices",
+                     "alignment")
+            # a log added before later vertices existed is padded with no-data at the tail when next formatted
+            va = va + [float("nan")] * (nv - len(va))
+            vb = vb + [float("nan")] * (nv - len(vb))
+            close = lambda p, q: And(p - q < tol, q - p < tol)       # noqa: E731
+            matched = [Or([close(d[i], e[j]) for i in range(n1)]) for j in range(n2)]
+            cx.prove(eq(nv, n1 + n2 - Sum(matched)), "a vertex is added for every depth that is not collocated", "alignment")
+            pos = elems(dh.desurvey(mk_array(X, depth, (nv,), "float64")))
+            ve = elems(dh.vertices)
+            cx.prove(And([eq(p, q) for p, q in zip(ve, pos)]), "every vertex sits at the position of its depth", "vertex positions")
+            cx.prove(And([depth[i] <= depth[i + 1] for i in range(nv - 1)]), "depths sorted", "alignment")
+            for i in range(n1):
+                cx.prove(Or([And(eq(depth[k], d[i]), eq(va[k], x[i])) for k in range(nv)]),
+                         f"value {i} of the first log stays attached to its depth", "values attached to depths")
+            for j in range(n2):
+                own = Or([And(eq(depth[k], e[j]), eq(vb[k], y[j])) for k in range(nv)])
+                merged = Or([And(close(depth[k], e[j]), eq(vb[k], y[j])) for k in range(nv)])
+                cx.prove(ite(matched[j], merged, own) if cx.mode == "sym" else (merged if matched[j] else own),
+                         f"value {j} of the second log is attached to its (or the collocated) depth", "values attached to depths")
+            cx.observe("depth", depth)
+            return "ok"
+
+
+class AddIntervalData(Scenario):
+    """interval (from-to) logs: every cell joins the positions of its from and to depths, values stay with their interval"""
+    pid = "C18"
+    builtins_for = ("geoh5py.objects.drillhole:float,int",)
+
+    def body(self, cx):
+        from geoh5py.workspace import Workspace
+        from geoh5py.objects import Drillhole
+        n1, n2 = self.params["n1"], self.params["n2"]
+        tol = 0.5
+        ws = Workspace()
+        dh = Drillhole.create(ws, collar=[10.0, 20.0, 30.0],
+                              surveys=real_np.c_[[0.0, 8.0, 16.0], [0.0, 40.0, 40.0], [-90.0, -60.0, -45.0]])
+        patch.detach(ws, dh)
+        with self.engine(cx) as X:
+            logs = []
+            for tag, n in (("a", n1), ("b", n2)):
+                if n == 0:
+                    continue
+                f = [cx.real(f"{tag}f{i}") for i in range(n)]
+                t = [cx.real(f"{tag}t{i}") for i in range(n)]
+                v = [cx.real(f"{tag}v{i}") for i in range(n)]
+                for i in range(n):
+                    cx.assume(f[i] >= 0)
+                    cx.assume(f[i] < t[i])
+                ft = mk_array(X, [q for i in range(n) for q in (f[i], t[i])], (n, 2), "float64")
+                data = dh.add_data({f"log{tag}": {"from-to": ft, "values": mk_array(X, v, (n,), "float64")}},
+                                   collocation_distance=tol)
+                logs.append((f, t, v, data))
+            cells = elems(dh.cells)
+            nc = shape(dh.cells)[0]
+            nv = shape(dh.vertices)[0]
+            ve = elems(dh.vertices)
+            fr, to = elems(dh.from_.values), elems(dh.to_.values)
+            cx.prove(len(fr) == nc and len(to) == nc and And([And(c >= 0, c < nv) for c in cells]),
+                     "one FROM/TO pair per cell, cells reference existing vertices", "alignment")
+            pf = elems(dh.desurvey(mk_array(X, fr, (nc,), "float64")))
+            pt = elems(dh.desurvey(mk_array(X, to, (nc,), "float64")))
+            for r in range(nc):
+                same = []
+                for ax in range(3):
+                    same.append(eq(select([ve[q * 3 + ax] for q in range(nv)], cells[2 * r]), pf[3 * r + ax]))
+                    same.append(eq(select([ve[q * 3 + ax] for q in range(nv)], cells[2 * r + 1]), pt[3 * r + ax]))
+                cx.prove(And(same), f"cell {r} joins the positions of its from and to depths", "cell positions")
+            close = lambda p, q: And(p - q < tol, q - p < tol)       # noqa: E731
+            for li, (f, t, v, data) in enumerate(logs):
+                vals = elems(data.values)
+                vals = vals + [float("nan")] * (nc - len(vals))
+                for i in range(len(f)):
+                    if li == 0:
+                        cx.prove(Or([And(eq(fr[r], f[i]), eq(to[r], t[i]), eq(vals[r], v[i])) for r in range(nc)]),
+                                 f"log {li} value {i} stays attached to its interval", "values attached to intervals")
+                    else:
+                        cx.prove(Or([And(close(fr[r], f[i]), close(to[r], t[i]), eq(vals[r], v[i])) for r in range(nc)]),
+                                 f"log {li} value {i} is attached to its (or the collocated) interval", "values attached to intervals")
+            cx.observe("cells", cells)
+            return "ok"
+
+
 def scenarios(tier, seed):
     if tier == "quick":
         return [Desurvey(rows=1, queries=2), Desurvey(rows=2, queries=1), Desurvey(rows=2, queries=2),
-                MatchValues(n=3, m=1), MatchValues(n=2, m=2)]
+                MatchValues(n=3, m=1), MatchValues(n=2, m=2), AddDepthData(n1=2, n2=1),
+                AddIntervalData(n1=2, n2=0), AddIntervalData(n1=1, n2=1)]
     return [Desurvey(rows=1, queries=2), Desurvey(rows=2, queries=2), Desurvey(rows=3, queries=1),
-            MatchValues(n=3, m=2), MatchValues(n=4, m=1), MatchValues(n=2, m=3), MatchValues(n=1, m=1)]
+            MatchValues(n=3, m=2), MatchValues(n=4, m=1), MatchValues(n=2, m=3), MatchValues(n=1, m=1),
+            AddDepthData(n1=2, n2=1), AddDepthData(n1=2, n2=2), AddDepthData(n1=3, n2=1), AddDepthData(n1=1, n2=2),
+            AddIntervalData(n1=2, n2=0), AddIntervalData(n1=1, n2=1), AddIntervalData(n1=2, n2=1), AddIntervalData(n1=3, n2=0)]
 
 
 def main(tier, seed):
@@ -136,10 +258,10 @@ def main(tier, seed):
             "survey depths non-decreasing and >= 0; query depths >= 0",
             "seam A: real in-memory Workspace, save_entity no-op; float/int stand-ins injected in geoh5py.objects.drillhole",
         ],
-        outside=["validate_depth_data / validate_interval_data / sort_depths (vertices and cells created for added data)",
+        outside=["three or more successive logs; mixed depth and interval logs on one hole; text data",
                  "float32 rounding of stored surveys", "direction beyond the last station when the last leg has zero length",
                  "more than 3 survey rows (z3 needs > 40 min on 4 rows: dropped from the thorough tier)"],
         bounds={"quick": "survey tables with 1-2 rows, 1-2 symbolic query depths; match_values/merge_arrays with <=3 head and <=2 query values (any order)", "thorough": "1-3 rows, 1-2 query depths; match/merge with <=4 head, <=3 query values"}[tier],
-        expected_outcomes={"Desurvey": {"ok"}, "MatchValues": {"ok"}},
+        expected_outcomes={"Desurvey": {"ok"}, "MatchValues": {"ok"}, "AddDepthData": {"ok"}, "AddIntervalData": {"ok"}},
         timeout_ms=8000 if tier == "quick" else 20000,
     )
